@@ -39,10 +39,11 @@ func (c loginCfg) config() *tds.LoginConfig {
 }
 
 // reference decoder of the TDS 5.0 login record (568 bytes):
-//   lhostname[30] lhostlen | lusername[30] len | lpw[30] len | lhostproc[30] len | lint2 lint4 lchar lflt ldate lusedb
-//   ldmpld linterfacespare ltype | lbufsize[4] | lspare[3] | lappname[30] len | lservname[30] len | lrempw[255] len |
-//   ltds[4] | lprogname[10] len | lprogvers[4] | lnoshort lflt4 ldate4 | llanguage[30] len | lsetlang | loldsecure[2] |
-//   lseclogin lsecbulk lhalogin | lhasessionid[6] | lsecspare[2] | lcharset[30] len | lsetcharset | lpacketsize[6] len | ldummy[4]
+//
+//	lhostname[30] lhostlen | lusername[30] len | lpw[30] len | lhostproc[30] len | lint2 lint4 lchar lflt ldate lusedb
+//	ldmpld linterfacespare ltype | lbufsize[4] | lspare[3] | lappname[30] len | lservname[30] len | lrempw[255] len |
+//	ltds[4] | lprogname[10] len | lprogvers[4] | lnoshort lflt4 ldate4 | llanguage[30] len | lsetlang | loldsecure[2] |
+//	lseclogin lsecbulk lhalogin | lhasessionid[6] | lsecspare[2] | lcharset[30] len | lsetcharset | lpacketsize[6] len | ldummy[4]
 type loginRec struct {
 	str   map[string][]byte
 	bytes map[string][]byte
